@@ -193,6 +193,13 @@ def run(repo: Repo, rep: Report, tier: str) -> None:
         for mname, m in ci.methods.items():
             if mname not in ("forward", "__init__") and not mname.startswith("plot"):
                 lint_value_keyed(rep, m, rule="METRIC-PURE", allowed_literals={0, 1, -1, 2}, also_device=True)
+    # the decision / LLR of a call depends only on that call's arguments and the demodulator's configuration:
+    # memoised constellation subsets must be keyed by everything that determines them, and the noise variance
+    # (or the received symbols) handed in by the caller is never modified in place
+    from .c20 import rule_cache_key, rule_purity
+
+    rule_cache_key(repo, rep, demods)
+    rule_purity(repo, rep, demods)
     rep.floor("soft returns decided", n_soft, 9)
     rep.floor("soft scaling laws", n_scale, 9)
     rep.floor("hard decision sites", n_hard, 9)
